@@ -280,7 +280,7 @@ func runC11(p *core.Program, r *core.Report) {
 					start := b.Succs[eqIdx]
 					reach := false
 					if okScan {
-						reach = canReachBlockWithoutBlock(start, apps[0].Block(), sc.header)
+						reach = path.CanReachThreaded(b, start, apps[0].Block(), sc.header)
 					}
 					c.ob("PT3", s.name, "an excluded element is not appended", p.InstrPos(iff), !reach, "from the edge on which the element equals an entry of the exclusion list the append is reachable within the same outer iteration")
 				}
@@ -293,6 +293,14 @@ func runC11(p *core.Program, r *core.Report) {
 					for i, sx := range isc.header.Succs {
 						if !inLoop[sx] && path.EdgeDominates(isc.header, i, apps[0].Block()) {
 							viaExit = true
+						}
+						// through a found-flag: the edge that leaves the flag false is the exit edge
+						if !inLoop[sx] {
+							for _, g := range path.Guards(fn, apps[0].Block()) {
+								if g.If == path.BlockIf(isc.header) && g.Idx == i {
+									viaExit = true
+								}
+							}
 						}
 					}
 					c.ob("PT3", s.name, "append only after the whole exclusion list was checked", p.InstrPos(apps[0]), viaExit, "the append is not dominated by the exit edge of the scan over the exclusion list")
@@ -376,6 +384,17 @@ func runC11(p *core.Program, r *core.Report) {
 				acc := guardedBy(fn, apps[0].Block(), func(cd path.Cond, truth bool) bool {
 					return cd.Op == token.EQL && truth && isJ(cd.X) && isLenParams(cd.Y)
 				})
+				if !acc {
+					// the same acceptance without the counter test: every path to the append
+					// leaves the j loop through the exit edge of its header, i.e. after j
+					// reached len(params) (a non-member leaves by "continue outer" instead)
+					jl := path.NaturalLoop(jHeader)
+					for i, sx := range jHeader.Succs {
+						if !jl[sx] && path.EdgeDominates(jHeader, i, apps[0].Block()) {
+							acc = true
+						}
+					}
+				}
 				c.ob("PT3", s.name, "accepted exactly when every other input was passed", p.InstrPos(apps[0]), acc, "the append must be dominated by j == len(params): the element was found in every other input")
 				// membership test on params[j] with the element (or, for By, a closure comparing images)
 				okMem := false
